@@ -55,11 +55,20 @@ class AssertEqual(Contract):
         return None
 
 
-@contract(MM + "kmeans_l1.py::KMeansL1L2._fit_l1", "C02", assumed=True)
-class FitL1(Contract):
+@contract(MM + "kmeans_l1.py::_kmeans_single_lloyd", "C02", assumed=True)
+class SingleRunOpaque(Contract):
+    """one Lloyd run: opaque here (it may raise); functional contract under C06"""
+
     def result(self, E, a, old):
-        models.maybe_raise(E, "_fit_l1")
-        return a.self
+        models.maybe_raise(E, "_kmeans_single_lloyd")
+        n, d = a.X.shape[0], a.X.shape[1]
+        return (NdArr.fresh("run_labels", (n,), "int"), E.real("run_inertia"), NdArr.fresh("run_centers", (a.n_clusters, d), "real"), E.int("n_iter"))
+
+
+@contract(MM + "kmeans_l1.py::_tolerance", "C02", assumed=True)
+class ToleranceOpaque(Contract):
+    def result(self, E, a, old):
+        return E.real("tol_")
 
 
 # ---- the fits under contract -----------------------------------------------------------------------------------
@@ -188,6 +197,32 @@ class KMeansL1L2Fit(FrameFit):
         f = dict(n_clusters=E.size("k", 1), init="k-means++", n_init=10, max_iter=E.size("max_iter", 1), tol=E.real("tol"), verbose=0,
                  random_state=E.int("seed"), copy_x=True, algorithm="lloyd", norm=norm)
         return dict(self=E.new_obj(MM + "kmeans_l1.py::KMeansL1L2", f), **data(E, has_w))
+
+
+@contract(MM + "kmeans_l1.py::KMeansL1L2._fit_l1", "C02")
+class FitL1Frame(FrameFit):
+    """the L1 fit itself (the real loop over the n_init runs): no hyper-parameter is written, the data are not written - also when
+    a run fails; an explicit array of initial centres included (n_init is then ignored, not overwritten)"""
+    frame_only = True
+    variants = [(ik, hw) for ik in ("k-means++", "array") for hw in (False, True)]
+    params = ["n_clusters", "init", "n_init", "max_iter", "tol", "verbose", "random_state", "copy_x", "algorithm", "norm"]
+    loop_kinds = {0: {"best_labels": ("nd", 1, "int"), "best_centers": ("nd", 2), "best_inertia": "real", "best_n_iter": "int",
+                      "labels": ("nd", 1, "int"), "centers": ("nd", 2), "inertia": "real", "n_iter_": "int"}}
+    loops = {0: lambda E, L: {"a_best_run_is_recorded_after_the_first_run": z3.BoolVal(
+        isinstance(L["best_labels"], NdArr) and isinstance(L["best_centers"], NdArr) and L["best_n_iter"] is not None)
+        if L["best_inertia"] is not None else z(L.k) == 0}}
+
+    def result(self, E, a, old):
+        models.maybe_raise(E, "_fit_l1")          # summary at call sites (KMeansL1L2.fit): may fail, returns self
+        return a.self
+
+    def setup(self, E, v):
+        init_kind, has_w = v
+        k, d = E.size("k", 1), E.size("d", 1)
+        f = dict(n_clusters=k, init="k-means++" if init_kind == "k-means++" else E.nd("init", (k, d)), n_init=E.size("n_init", 1),
+                 max_iter=E.size("max_iter", 1), tol=E.real("tol"), verbose=0, random_state=E.int("seed"), copy_x=True, algorithm="lloyd", norm="L1")
+        n = E.size("n", 1)
+        return dict(self=E.new_obj(MM + "kmeans_l1.py::KMeansL1L2", f), X=E.nd("X", (n, d)), y=None, sample_weight=E.nd("w", (n,)) if has_w else None)
 
 
 @contract(MM + "target_predictors.py::TransformedTargetRegressor2.fit", "C02")
